@@ -40,10 +40,23 @@ class RecGen(PartGenerator):
     def generate_part_helper(self, part_name, part_counter):
         sizes = self._batch_sizes
         if sizes is not None and part_counter - 1 < len(sizes) and sizes[part_counter - 1] is not None:
+            entry = sizes[part_counter - 1]
             parts = []
-            for j in range(sizes[part_counter - 1]):
+            if isinstance(entry, (list, tuple)):
+                # nested: a batch holding one inner batch of entry[0] parts plus entry[1] loose parts
+                inner = []
+                for j in range(entry[0]):
+                    p = Part(f'{part_name}_i{j}', self.value, self.quality)
+                    p.idx = (part_counter, j)
+                    inner.append(p)
+                    self._log.append(p)
+                ib = Batch(part_name + '_inner', inner)
+                ib.idx = (part_counter, 'inner')
+                parts.append(ib)
+                entry = entry[1]
+            for j in range(entry):
                 p = Part(f'{part_name}_{j}', self.value, self.quality)
-                p.idx = (part_counter, j)
+                p.idx = (part_counter, 10 + j)
                 parts.append(p)
                 self._log.append(p)
             b = Batch(part_name, parts)
@@ -147,7 +160,7 @@ def build(world):
         if k == 'source':
             gen = RecGen(f'P{name}', world.val(d.get('value', 0)), world.generated, d.get('batches'))
             if 'batches' in d and d['batches'] is not None:
-                gen._batch_sizes = [None if b is None else world.val(b) for b in d['batches']]
+                gen._batch_sizes = [None if b is None else (tuple(b) if isinstance(b, (list, tuple)) else world.val(b)) for b in d['batches']]
             obj = Source(name, gen, world.val(d.get('cycle', 0)), d.get('parts', 2))
         elif k == 'handler':
             obj = PartHandler(name, up, world.val(d.get('cycle', 0)))
@@ -464,6 +477,8 @@ class Census(Monitor):
                 if k == 'buffer':
                     for p in d.stored_parts:
                         put(p, f'{n}.buffer')
+                    ctx.require(d.level() == sum(len(leaves(p)) for p in d.stored_parts),
+                                'the buffer reports a number of parts inside it that differs from the parts it stores', n)
                 if k == 'batcher' and d._in_progress_batch is not None:
                     put(d._in_progress_batch, f'{n}.in_progress')
                 if k == 'source':
